@@ -174,6 +174,12 @@ func (w *allocWalker) elemExpr(e ast.Expr, depth int) string {
 		if def, ok := w.defs[id.Name]; ok && depth < 4 {
 			return w.elemExpr(def, depth+1)
 		}
+		// a package-level variable holding the descriptor: its initialiser is what counts
+		if v := w.p.vars[id.Name]; v != nil && v.init != nil && depth < 4 {
+			if _, local := w.defs[id.Name]; !local {
+				return w.elemExpr(v.init, depth+1)
+			}
+		}
 	}
 	if s, ok := e.(*ast.SelectorExpr); ok && s.Sel.Name == "data" {
 		if c, ok := s.X.(*ast.CallExpr); ok && len(c.Args) == 1 {
